@@ -148,8 +148,12 @@ def enumerate_specs(tier):
             if tier == "quick" and len(cfgs) > 16:
                 step = max(1, len(cfgs) // 16)
                 cfgs = cfgs[::step]
-            for args in cfgs:
+            for ci, args in enumerate(cfgs):
                 specs.append({"cat": cname, "op": name, "args": args, "variant": {}})
+                # conversions are no-ops (no copy) exactly when the operand already has the target dtype, so aliasing
+                # depends on the dtype: float64 operands too (quick: every third configuration)
+                if tier != "quick" or ci % 3 == 0:
+                    specs.append({"cat": cname, "op": name, "args": args, "variant": {"dtype": "float64"}})
     return specs
 
 
@@ -165,7 +169,8 @@ def main(tier, seed):
     results = runner.run_pool(__name__, specs, tier, seed)
     return runner.finish(
         PROP, tier, seed, results, t0,
-        bounds={"grid": "op configurations of the C01/C02 catalogues (quick: <= 16 per op, evenly spaced) + aliasing scenarios",
+        bounds={"grid": "op configurations of the C01/C02 catalogues (quick: <= 16 per op, evenly spaced) with float32 operands, and with "
+                        "float64 operands (quick: every third configuration) + aliasing scenarios",
                 "scenarios": SCENARIOS},
         assumptions=["symbolic arrays are real ndarrays with NumPy's real in-place and aliasing behaviour; an element that "
                      "was written is a different node unless the solver proves it equal for all values",
